@@ -24,7 +24,9 @@ CheckLine(r) ==
    /\ Ck("C06", r, "C06.constructs", r.kind = "upd" => (~r.raised /\ ~r.none), <<>>)
    /\ Ck("C06", r, "C06.roundtrip", (r.kind = "upd" /\ HasImpl(r)) => r.rt_ok, r.diff)
    /\ Ck("C06", r, "C06.meaning", (r.kind = "upd" /\ HasImpl(r) /\ WfUpdate(r.impl, r.asn4)) => NormUpdate(r.impl) = NormUpdate(r.ref), <<>>)
-   /\ Ck("C08", r, "C08.wellformed", (r.kind = "upd" /\ HasImpl(r)) => WfUpdate(r.impl, r.asn4), <<>>)
+   \* other spellings of the same addresses (leading zeros): refused, or the message decodes to the values the text denotes
+   /\ Ck("C06", r, "C06.spelling", (r.kind = "updspell" /\ HasImpl(r)) => r.rt_ok, r.diff)
+   /\ Ck("C08", r, "C08.wellformed", (r.kind \in {"upd", "updspell"} /\ HasImpl(r)) => WfUpdate(r.impl, r.asn4), <<>>)
    /\ Ck("C08", r, "C08.silent", r.kind = "upd" => ~r.none, <<>>)
    /\ Ck("C09", r, "C09.decode", r.kind \in {"upd", "updvar", "mpdec"} => r.dec_ok, r.ddiff)
    /\ Ck("C09", r, "C09.error", r.kind = "cor" => r.dec_err, <<>>)
@@ -80,7 +82,7 @@ CheckAP(r) ==
 \* the codec is a function of its input: repeated evaluation (at once, and again after all other vectors) gives the same result
 CheckPure(r) ==
    r.kind # "comm" =>
-      /\ Ck("C06", r, "C06.pure", r.kind = "upd" => r.pure, r.impure)
+      /\ Ck("C06", r, "C06.pure", r.kind \in {"upd", "updspell"} => r.pure, r.impure)
       /\ Ck("C07", r, "C07.pure", r.kind = "mp" => r.pure, r.impure)
       /\ Ck("C08", r, "C08.pure", r.pure, r.impure)
       /\ Ck("C09", r, "C09.pure", r.kind \in {"upd", "updvar", "cor", "updap", "mpdec"} => r.pure, r.impure)
